@@ -20,6 +20,12 @@ MUTANTS = [
     ('sma', 'sma.py', 'return res if sequential else res[-1]', 'res = res - np.mean(source)\n    return res if sequential else res[-1]'),
     ('obv', 'obv.py', 'obv_arr[1:] = volume[0] + np.cumsum(delta)', 'obv_arr[1:] = volume[-1] + np.cumsum(delta)'),
     ('willr', 'willr.py', None, None),
+    # the second candle series of beta is an input like the first: reading it one minute ahead is a look-ahead
+    ('beta', 'beta.py', 'y = benchmark_candles[:, 2]', 'y = np.concatenate((benchmark_candles[1:, 2], benchmark_candles[-1:, 2]))'),
+    ('beta', 'beta.py', 'mean_y = windows_y.mean(axis=1)', 'mean_y = windows_y.mean()'),
+    # weights built from lists / appended scalars (fwma, swma, pwma, sinwma): the window must still end at the candle
+    ('fwma', 'fwma.py', 'swv = sliding_window_view(source, window_shape=period)', 'swv = sliding_window_view(source, window_shape=period)[1:]'),
+    ('swma', 'swma.py', 'res = np.average(swv, weights=triangle, axis=-1)', 'res = np.average(swv, weights=triangle, axis=-1) / np.sum(source)'),
     ('cci', 'cci.py', 'for j in range(i - period + 1, i + 1):\n            sum_tp', 'for j in range(i - period + 2, min(i + 2, n)):\n            sum_tp'),
 ]
 
